@@ -27,6 +27,7 @@ def gen(rng, i, quick):
     enc = rng.chance(1, 2)
     for n in NAMES3:
         ops.append({"op": "opts", "who": n, "path_required": True, "encrypt_controls": enc})
+        ops.append({"op": "psk_insert", "who": n, "psk_id": "aa01", "value": "0102030405060708"})
     wops, meta = [], []
     cid = 0
     built = {n: [] for n in NAMES3}      # commit ids built (message exists)
@@ -42,11 +43,17 @@ def gen(rng, i, quick):
             det = rng.chance(1, 4)
             reinit = (r == nrounds - 1) and rng.chance(1, 3)
             o = {"op": "commit", "who": m, "id": f"c{cid}", "detached": det, "observe": m}
+            # a third of the commits carry NO update path (a PSK-only commit): whatever a received
+            # commit does to the pending one must not depend on its having a path
+            pathless = rng.chance(1, 3) and not reinit
+            ops.append({"op": "opts", "who": m, "path_required": not pathless, "encrypt_controls": enc})
+            if pathless:
+                o["psk"] = ["aa01"]
             if reinit:
                 o["reinit"] = True
                 o["new_gid"] = "aabb%02x" % i
             ops.append(o)
-            wops.append(f"WBuild {NAMES3.index(m)} {cid} {'true' if det else 'false'} {'true' if reinit else 'false'}")
+            wops.append(f"WBuild {NAMES3.index(m)} {cid} {'true' if det else 'false'} {'true' if reinit else 'false'} {'false' if (pathless and not enc) else 'true'}")
             meta.append(len(ops) - 1)
             (detached if det else built)[m].append(cid)
             allc.append(cid)
@@ -55,7 +62,7 @@ def gen(rng, i, quick):
             if rng.chance(1, 4):
                 cid += 1
                 ops.append({"op": "commit", "who": m, "id": f"c{cid}", "observe": m})
-                wops.append(f"WBuild {NAMES3.index(m)} {cid} false false")
+                wops.append(f"WBuild {NAMES3.index(m)} {cid} false false true")
                 meta.append(len(ops) - 1)
                 allc.append(cid)
             if rng.chance(1, 6):
